@@ -18,7 +18,7 @@ const STREAM_SMALL: u64 = 2;
 pub fn run(run: &mut Run) {
     run.rule = "random keyframe sets (0-8 keyframes, sparse properties, repeated and arbitrary-f32 positions, \
         per-keyframe/default easings incl. recording custom easings, exact-regime timing, optional start_with; keyframes added \
-        in ascending order, fully shuffled, or with one straggler added last; builder setters called in varying order) on 7 \
+        in ascending order, fully shuffled, or with one straggler added last; builder setters called in varying order) on 8 \
         derive(Animate) shapes built through the real builder, plus an exhaustive small scope; each timeline is \
         evaluated at times mapping exactly to the 1/4,1/2,3/4 points of every property segment and to random k/4096 \
         positions in the first forward pass, a reverse pass, later cycles, before the delay and after the end; \
